@@ -13,6 +13,9 @@ use std::cell::RefCell;
 use std::collections::HashMap;
 use std::mem;
 use std::num::NonZeroUsize;
+#[cfg(feature = "verif")]
+use crate::verif::sync::Mutex;
+#[cfg(not(feature = "verif"))]
 use std::sync::Mutex;
 
 /// A variant of the standard regret infoset that caches the last selected external sampled strat
@@ -355,6 +358,8 @@ fn single_player_iter<'a, const FIRST: bool>(
     it: u64,
     params: &RegretParams,
 ) -> f64 {
+    #[cfg(feature = "verif")]
+    crate::verif::sync::phase();
     let [active_player_infosets, external_player_infosets] = player_infosets;
     // compute threashold of `target` nodes for efficient multi threading
     thread_threshold::<FIRST>(
@@ -420,6 +425,12 @@ pub(crate) fn solve_external_multi(
             .map(|info| Mutex::new(CachedInfoset::new(info.num_actions())))
             .collect::<Box<[_]>>()
     });
+    #[cfg(feature = "verif")]
+    {
+        crate::verif::sync::label(&chance_infosets, crate::verif::KIND_CHANCE);
+        crate::verif::sync::label(&player_one, crate::verif::KIND_ONE);
+        crate::verif::sync::label(&player_two, crate::verif::KIND_TWO);
+    }
     let [mut reg_one, mut reg_two] = [f64::INFINITY; 2];
 
     // create channels
